@@ -31,6 +31,15 @@ func richPool(r *simrt.Run, n int) []Val {
 	floats := []float64{0.5, -2.25, 3.14159, 1e-7, 1.5e300, 123456.789}
 	times := []int64{0, 1, 1700000000123456789, -86400000000000}
 	durs := []int64{0, 1, 1500000000, 3600000000000, -1000000}
+	// now and then one string whose printed form is longer than the 64 KiB
+	// default token limit of bufio.Scanner (boundary and far beyond)
+	var long *Val
+	if r.OneIn(10, "rp.longstr") {
+		n := []int{65533, 65534, 65535, 65536, 70000, 150000}[r.Choose(6, "rp.longlen")]
+		v := StrV("L" + strings.Repeat("x", n-2) + "R")
+		long = &v
+		r.Probe("string-longer-than-64KiB-line")
+	}
 	atom := func() Val {
 		switch r.Choose(8, "rp.kind") {
 		case 0, 1:
@@ -95,6 +104,10 @@ func richPool(r *simrt.Run, n int) []Val {
 	}
 	var pool []Val
 	seen := map[string]bool{}
+	if long != nil {
+		pool = append(pool, *long)
+		seen[long.Key()] = true
+	}
 	for i := 0; i < 3*n && len(pool) < n; i++ {
 		v := gen(2)
 		if !seen[v.Key()] {
